@@ -435,7 +435,7 @@ func main() {
 		return
 	}
 	rng := h.Rng
-	cfgs := [][2]int{{100, 160}, {200, 100}, {80, 250}, {150, 150}}
+	cfgs := [][2]int{{100, 160}, {200, 180}, {80, 250}, {150, 200}} // timeouts of 160 ms and more: the answered pongs below keep at least 80 ms of margin
 	type job struct{ name, op string }
 	var jobs []job
 	for c := 0; c < h.N; c++ {
@@ -444,7 +444,7 @@ func main() {
 		k := rng.Intn(4) // pings answered before silence
 		var ds []string
 		for j := 0; j < k; j++ {
-			ds = append(ds, strconv.Itoa([]int{0, T / 5, T / 2, T * 3 / 4}[rng.Intn(4)]))
+			ds = append(ds, strconv.Itoa([]int{0, T / 5, T / 3, T / 2}[rng.Intn(4)]))
 		}
 		switch rng.Intn(3) {
 		case 0:
@@ -456,7 +456,7 @@ func main() {
 				ds = append(ds, strconv.Itoa(T/2))
 			}
 			for j := 0; j < 3+rng.Intn(4); j++ { // a live peer: never dropped
-				ds = append(ds, strconv.Itoa([]int{0, T / 5, T / 2, T * 3 / 4}[rng.Intn(4)]))
+				ds = append(ds, strconv.Itoa([]int{0, T / 5, T / 3, T / 2}[rng.Intn(4)]))
 			}
 		}
 		jobs = append(jobs, job{fmt.Sprintf("ka %d I=%d T=%d", c, I, T), fmt.Sprintf("run %d %d %s", I, T, strings.Join(ds, ","))})
